@@ -69,12 +69,12 @@ class _SimFile(MemoryFile):
         m = fs.clock.now()
         # never produce an exact (path, size, mtime) collision between two different writes of one path:
         # no metadata checksum could tell them apart (DESIGN §3.3)
-        prev = type(fs).last_stamp.get(self.path)
+        used = type(fs).last_stamp.setdefault(self.path, set())
         size = self.getbuffer().nbytes
-        while prev is not None and prev == (size, m):
+        while (size, m) in used:  # any earlier generation of this path, not only the previous one
             fs.clock.tick += fs.clock.resolution
             m = fs.clock.now()
-        type(fs).last_stamp[self.path] = (size, m)
+        used.add((size, m))
         self.modified = m
 
 
